@@ -70,6 +70,21 @@ class Boom(SnowfakeryPlugin):
             return _Items(int(n), bool(repeat))
 
 
+class NoFunctions(SnowfakeryPlugin):
+    """a plugin class without a function library (no `Functions`, inherited custom_functions)"""
+
+
+class OwnLibrary(SnowfakeryPlugin):
+    """no `Functions` class, but its own custom_functions"""
+
+    class _Lib:
+        def one(self):
+            return 1
+
+    def custom_functions(self, *args, **kwargs):
+        return self._Lib()
+
+
 if PluginResultIterator is not None:
     class _Items(PluginResultIterator):
         """k records, then used up; restart begins again (with none, if k = 0)"""
